@@ -109,3 +109,24 @@ Theorem C02_rejection_located : forall s p,
   parse s = Err p -> located s p \/ (p = (0, 0) /\ exists r, s = c_bom :: r).
 Proof. exact parse_error_located. Qed.
 Print Assumptions C02_rejection_located.
+
+(* Totality.  "Every input text is either rejected with a located syntax error ... or parsed":
+   the model's recursive descent runs on explicit fuel (30 per significant token + 60), and the
+   out-of-fuel answer is unreachable - 13 per unread token + 13 already suffice for every
+   parser state (Syntax/FuelFacts.v: potential 13 * unread + rank of the function) ... *)
+From MV Require Import Syntax.FuelFacts.
+Theorem C02_parser_fuel_sufficient : forall st n,
+  (n >= 30 * length (toks st) + 60)%nat -> parse_tokens n st <> Fuel.
+Proof. exact parse_tokens_enough_fuel. Qed.
+Print Assumptions C02_parser_fuel_sufficient.
+(* ... so [parse] never answers Fuel.  Together with C02_rejection_located (an Err answer
+   carries a position inside the text) this makes the model's parse total: for every text the
+   answer is a located rejection or a tree. *)
+Theorem C02_parser_total : forall s, parse s <> Fuel.
+Proof. exact parse_never_fuel. Qed.
+Print Assumptions C02_parser_total.
+(* Lexer + parser: every text is rejected with a position or parsed. *)
+Theorem C02_rejected_or_parsed : forall s,
+  (exists p, parse s = Err p) \/ (exists b, parse s = Ok b).
+Proof. exact parse_total. Qed.
+Print Assumptions C02_rejected_or_parsed.
